@@ -1,8 +1,8 @@
 (* C06 -- the built-in Targets behave as a content map plus a reference -> descriptor map.
    Only statements closed by [exact]; the lemmas live in Proofs/Stores.v, the executable
    models (memory store, OCI layout store, abstract specification) in Model/Stores.v. *)
-From Oras Require Import Base.Prelude Generated.GC06 Model.Stores Model.StoresFileSpec Model.StoresConc Model.StoresConcOci Model.StoresConcFile
-     Proofs.Stores Proofs.StoresConc Proofs.StoresConcOci Proofs.StoresConcOci2 Proofs.StoresConcFile Proofs.StoresFile Proofs.StoresConcFileGraph Proofs.StoresConcReads Proofs.StoresFileSpec.
+From Oras Require Import Base.Prelude Generated.GC06 Model.Stores Model.StoresFileSpec Model.StoresFileLimit Model.StoresConc Model.StoresConcOci Model.StoresConcFile
+     Proofs.Stores Proofs.StoresConc Proofs.StoresConcOci Proofs.StoresConcOci2 Proofs.StoresConcFile Proofs.StoresFile Proofs.StoresConcFileGraph Proofs.StoresConcReads Proofs.StoresFileSpec Proofs.StoresFileLimit.
 From Coq Require Import Permutation.
 
 (* For every history, the memory store (cas.Memory + resolver.Memory + graph.Memory)
@@ -417,6 +417,80 @@ Theorem C06_disable_overwrite_unobservable_file : forall (ig : bool) (h : list o
 Proof. exact file_disable_overwrite_unobservable. Qed.
 Print Assumptions C06_disable_overwrite_unobservable_file.
 
+
+(* ---- file store created with NewWithFallbackLimit: content.LimitedStorage.Push refuses an
+   unnamed descriptor whose Size exceeds the limit before anything is read (Model/StoresFileLimit.v) ---- *)
+
+(* exactly the oversized unnamed pushes (IgnoreNoName off) are refused, and the refusal changes nothing *)
+Theorem C06_limit_refusal_iff_file : forall lim fx ig ov s o,
+  snd (file_step_lim lim fx ig ov s o) = LLimit <->
+  exists d c, o = Push d c /\ d_name d = 0 /\ ig = false /\ lim < d_size d.
+Proof. exact file_limit_refusal_iff. Qed.
+Print Assumptions C06_limit_refusal_iff_file.
+
+Theorem C06_limit_refusal_noop_file : forall lim fx ig ov s o,
+  snd (file_step_lim lim fx ig ov s o) = LLimit -> fst (file_step_lim lim fx ig ov s o) = s.
+Proof. exact file_limit_refusal_noop. Qed.
+Print Assumptions C06_limit_refusal_noop_file.
+
+(* for EVERY history, option setting and limit -- aliasing names, titled successors, code as found
+   or repaired -- nothing larger than the limit is ever in the fallback storage *)
+Theorem C06_limit_bounds_fallback_file : forall lim fx ig ov h k c,
+  get gkey_eqb k (f_cas (fst (runl (file_step_lim lim fx ig ov) file_init h))) = Some c -> k_size k <= lim.
+Proof. exact file_limit_cas_bounded_init. Qed.
+Print Assumptions C06_limit_bounds_fallback_file.
+
+(* the limited store refines the abstract specification with the same limit on every history
+   without an aliasing name (equal outputs, content map related, invariant kept) *)
+Theorem C06_refines_file_limit : forall lim ig ov h s a,
+  Forall no_alias h -> file_inv s -> frel s a ->
+  snd (runl (file_step_lim lim true ig ov) s h) = snd (runl (fspec_step_lim lim ig) a h) /\
+  frel (fst (runl (file_step_lim lim true ig ov) s h)) (fst (runl (fspec_step_lim lim ig) a h)) /\
+  file_inv (fst (runl (file_step_lim lim true ig ov) s h)).
+Proof. exact refines_file_limit. Qed.
+Print Assumptions C06_refines_file_limit.
+
+Theorem C06_fetch_matches_digest_file_limit : forall lim ig ov h d hash len,
+  Forall no_alias h ->
+  let s := fst (runl (file_step_lim lim true ig ov) file_init h) in
+  snd (file_step_lim lim true ig ov s (Fetch d)) = LOut (FO (OBytes hash len)) -> hash = d_dig d.
+Proof. exact file_limit_fetch_matches. Qed.
+Print Assumptions C06_fetch_matches_digest_file_limit.
+
+(* a history whose unnamed pushes stay below the limit cannot observe it: all theorems about
+   file_step carry over *)
+Theorem C06_limit_unobservable_below_file : forall lim fx ig ov h s,
+  Forall (below_limit lim ig) h ->
+  snd (runl (file_step_lim lim fx ig ov) s h) = map LOut (snd (runf (file_step fx ig ov) s h)) /\
+  fst (runl (file_step_lim lim fx ig ov) s h) = fst (runf (file_step fx ig ov) s h).
+Proof. exact file_limit_unobservable. Qed.
+Print Assumptions C06_limit_unobservable_below_file.
+
+(* for EVERY history (also above the limit) the limited store ends in the state of the unlimited
+   store run on the history without its oversized unnamed pushes and answers the remaining
+   operations alike: every theorem about file_step applies to the filtered history *)
+Theorem C06_limit_is_filter_file : forall lim fx ig ov h s,
+  fst (runl (file_step_lim lim fx ig ov) s h) =
+  fst (runf (file_step fx ig ov) s (filter (fun o => negb (over_limit lim ig o)) h)) /\
+  filter (fun x => match x with LLimit => false | LOut _ => true end) (snd (runl (file_step_lim lim fx ig ov) s h)) =
+  map LOut (snd (runf (file_step fx ig ov) s (filter (fun o => negb (over_limit lim ig o)) h))).
+Proof. exact file_limit_is_filter. Qed.
+Print Assumptions C06_limit_is_filter_file.
+
+(* the conditions of [over_limit] are the guards in the Go source, regenerated on every run *)
+Theorem C06_limit_guards_from_source :
+  limited_Push_guards = [(b "fmt.Errorf"%string, [b "expected.Size > ls.PushLimit"%string]);
+                         (b "ls.Storage.Push"%string, [])] /\
+  file_push_guards = [(b "s.fallbackStorage.Push"%string, [b "name == ''"%string])].
+Proof. exact limit_guards_from_source. Qed.
+Print Assumptions C06_limit_guards_from_source.
+
+Example C06_ex_file_limit :
+  snd (runl (file_step_lim 10 true false false) file_init
+            [Push (mkDesc 1 9 20 0) (mkBlob 9 20 [(6, 1, 5)] 9 [(6, 1, 5)]); Push w_unnamed w_good;
+             Exists (mkDesc 1 9 20 0); Fetch w_unnamed])
+  = [LLimit; LOut (FO OOk); LOut (FO (OBool false)); LOut (FO (OBytes 1 5))].
+Proof. exact file_limit_example. Qed.
 
 (* the file store has no Delete: for every option setting and EVERY history (aliasing names
    and titled successors included) what Exists once answered true for stays present *)
